@@ -82,6 +82,24 @@ def get_yaml_default_loader():
     return yaml_default_loader
 
 
+def _is_recursive(value, exploring=None, done=None) -> bool:
+    """Whether a loaded structure contains itself, e.g. ``&a [*a]``."""
+    if not isinstance(value, (list, dict)):
+        return False
+    if exploring is None:
+        exploring, done = set(), set()
+    if id(value) in exploring:
+        return True
+    if id(value) in done:
+        return False
+    exploring.add(id(value))
+    items = value.values() if isinstance(value, dict) else value
+    recursive = any(_is_recursive(v, exploring, done) for v in items)
+    exploring.discard(id(value))
+    done.add(id(value))
+    return recursive
+
+
 def yaml_load(stream):
     import yaml
 
@@ -90,6 +108,8 @@ def yaml_load(stream):
     except ValueError as ex:
         # not every failure in PyYAML is a YAMLError, e.g. int("", 2) for "0b_" or a lone surrogate that cannot be encoded
         raise yaml.YAMLError(f"{type(ex).__name__}: {ex}") from ex
+    if _is_recursive(value):
+        raise yaml.YAMLError("Recursive aliases are not supported")
     if isinstance(value, dict) and value and all(v is None for v in value.values()):
         if len(value) == 1 and stream.strip() == next(iter(value.keys())) + ":":
             value = stream
